@@ -138,10 +138,29 @@ class DictWriter:
                 "binding": self.write_binding(variable.binding),
                 "amount": variable.amount,
                 "alignment": variable.alignment,
+                "value": self.write_variable_value(variable.value),
             }
         else:  # pragma: no cover
             raise NotImplementedError(str(variable))
         return json_variable
+
+    def write_variable_value(self, value):
+        """Serialize the initial value: None, or a tuple of parts."""
+        if value is None:
+            return None
+        json_parts = []
+        for part in value:
+            if isinstance(part, bytes):
+                json_part = {"kind": "bytes", "data": bin2asc(part)}
+            else:
+                typ, label = part
+                json_part = {
+                    "kind": "label",
+                    "type": self.write_type(typ),
+                    "name": label,
+                }
+            json_parts.append(json_part)
+        return json_parts
 
     def write_subroutine(self, subroutine):
         json_binding = self.write_binding(subroutine.binding)
@@ -417,9 +436,25 @@ class DictReader:
         binding = self.construct_binding(json_variable["binding"])
         amount = json_variable["amount"]
         alignment = json_variable["alignment"]
-        variable = ir.Variable(name, binding, amount, alignment)
+        value = self.construct_variable_value(json_variable["value"])
+        variable = ir.Variable(name, binding, amount, alignment, value=value)
         self.register_value(variable)
         return variable
+
+    def construct_variable_value(self, json_value):
+        if json_value is None:
+            return None
+        parts = []
+        for json_part in json_value:
+            kind = json_part["kind"]
+            if kind == "bytes":
+                part = asc2bin(json_part["data"])
+            elif kind == "label":
+                part = (self.get_type(json_part["type"]), json_part["name"])
+            else:  # pragma: no cover
+                raise NotImplementedError(kind)
+            parts.append(part)
+        return tuple(parts)
 
     def construct_subroutine(self, json_subroutine):
         name = json_subroutine["name"]
